@@ -38,7 +38,7 @@ def required(tier):
     b = {f'residue:{k}': 1 for k in range(32)}
     b.update({'residue:0': 4, 'directio:on': 40, 'directio:off': 40, 'template:on': 20, 'template:off': 40, 'override-attempt': 30,
               'multi-file': 40, 'permutations>=2': 20, 'many-blocks-unpadded': 20, 're-recorded-same-stem': 50, 'reducer-header-skip': 30, 'user-key-begins-with-END': 20, 'sibling-stems-in-directory': 50, 'directio:string-zero': 20, 'empty-string-value': 10, 'blimpy-consulted': 50, 'aligned+directio': 3, 're-recorded-through-from_data:longer-than-input': 60,
-              're-recorded-through-from_data:user-card-clashes-with-inherited': 40})
+              're-recorded-through-from_data:user-card-clashes-with-inherited': 40, 'second-recording-same-backend': 40})
     return {'buckets': b, 'counters': {'blocks_parsed': 500, 'reader_comparisons': 500, 'listing_orders_realised': 40},
             'checks': 3000, 'nontrivial': 100}
 
@@ -345,6 +345,29 @@ def _run(stg, raw_utils, c, cfg, tmp, R):
             except SystemExit:
                 R.violate('blimpy-rejects-file', file=fi)
     R.mark_nontrivial(len(all_blocks) >= 2)
+    # ---- a second recording made with the SAME backend object: its blocks are distributed blocks-per-file at a time as well,
+    # whatever the first recording's last file held
+    if c['_idx'] % 4 == 1 and cfg['bpf'] >= 2:
+        R.bucket('second-recording-same-backend')
+        n2 = int(2 * cfg['bpf'] + (c['sub'] % cfg['bpf']))
+        stem_b = os.path.join(tmp, 'recb')
+        with common.quiet():
+            rec['rvb'].record(stem_b, num_blocks=n2, length_mode='num_blocks', header_dict={}, digitize=cfg['digitize'], load_template=False,
+                              verbose=False)
+        fb_ = sorted(glob.glob(stem_b + '.????.raw'))
+        try:
+            counts_ = [len(guppi.parse_file(f)) for f in fb_]
+        except guppi.GuppiError as e:
+            counts_ = None
+            R.violate('framing:' + e.key + ':second-recording-same-backend', msg=str(e))
+        if counts_ is not None:
+            want_ = [cfg['bpf']] * (n2 // cfg['bpf']) + ([n2 % cfg['bpf']] if n2 % cfg['bpf'] else [])
+            R.check(counts_ == want_, 'blocks-per-file-distribution:second-recording-same-backend', got=counts_, want=want_,
+                    first_recording=[len(b) for b in per_file])
+            R.check(int(rec['rvb'].blocks_per_file) == cfg['bpf'], 'backend-blocks_per_file-changed-by-recording',
+                    got=int(rec['rvb'].blocks_per_file), want=cfg['bpf'])
+        for f in fb_:
+            os.remove(f)
     # ---- the recording is read back through RawVoltageBackend.from_data and written again, the caller asking for MORE than the
     # input holds: the pipeline-owned cards of the new file describe what was written (the input's length), not what was asked for
     if c['_idx'] % 4 == 2 and not c['user'].get('EMPTYSTR') == '':
@@ -387,8 +410,9 @@ def _run(stg, raw_utils, c, cfg, tmp, R):
                 w = nin * spb * tbin
                 R.check(isinstance(g, (int, float)) and abs(g - w) <= 1e-12 * w, 're-recorded-through-from_data:owned-field-wrong:SCANLEN',
                         got=g, want=w, asked_blocks=nin + 3, block=bi)
-                for k in ('BLOCSIZE', 'OBSNCHAN', 'NBITS', 'TBIN'):
-                    R.check(k in h and _num_eq(h[k], guppi.parse_value(h0[k])), 're-recorded-through-from_data:owned-field-wrong:' + k, block=bi)
+                for k in ('BLOCSIZE', 'OBSNCHAN', 'NBITS', 'TBIN', 'OBSFREQ', 'OBSBW', 'CHAN_BW'):
+                    R.check(k in h and _num_eq(h[k], guppi.parse_value(h0[k])), 're-recorded-through-from_data:owned-field-wrong:' + k, block=bi,
+                            got=h.get(k), want=h0.get(k), start_chan=cfg['start_chan'])
                 if bi in (0, len(ob) - 1):
                     for k, w in hd_new.items():
                         R.check(k in h and _val_equal(w, h[k]), 're-recorded-through-from_data:user-card-lost-or-overridden-by-inherited', card=k,
